@@ -42,8 +42,8 @@ Definition c03_cfg : config :=
      startup_may_fire := false; shutdown_may_fire := false |}.
 Example C03_ex_schedule :
   exists s, run (step c03_cfg) (init c03_cfg)
-              [LLaunch 0; LRunCall 0; LPoll 0 false; LPoll 0 true; LGateDecide 0; LLaunch 1; LRunCall 1] = Some s
-            /\ obs_trace obs [LLaunch 0; LRunCall 0; LPoll 0 false; LPoll 0 true; LGateDecide 0; LLaunch 1; LRunCall 1]
+              [LLaunch 0; LRunStore 0; LRunCall 0; LPoll 0 false; LPoll 0 true; LGateDecide 0; LLaunch 1; LRunCall 1] = Some s
+            /\ obs_trace obs [LLaunch 0; LRunStore 0; LRunCall 0; LPoll 0 false; LPoll 0 true; LGateDecide 0; LLaunch 1; LRunCall 1]
                = [ERunCall 0; EPoll 0 false; EPoll 0 true; ERunCall 1].
 Proof. eexists. split; vm_compute; reflexivity. Qed.
 (* ... and the monitor rejects a trace in which the second Run starts before readiness *)
@@ -68,11 +68,12 @@ Theorem C03_pending_gate : forall c s l s',
   ((at_gate s' /\ errq s' <> []) \/ decided s') /\ launched s' = launched s.
 Proof. exact sup_c03_pending_gate. Qed.
 
-(* A quiescent state after some runnable returned a real error: no goroutine is about to call Run,
+(* A quiescent state after some runnable returned a real error: no launched goroutine is still on its
+   way to call Run (waiting p := p = RnLaunched \/ p = RnStored),
    and Main has fixed its result or is inside a slow IsRunning() call with the failure queued. *)
 Theorem C03_pending_quiescent : forall c s,
   0 < nrun c -> reachable_sup c s -> quiescent c s = true -> real_in (hist s) = true ->
-  (forall i, rn_at s i <> RnLaunched) /\ (decided s \/ (errq s <> [] /\ at_gate s)).
+  (forall i, ~ waiting (rn_at s i)) /\ (decided s \/ (errq s <> [] /\ at_gate s)).
 Proof. exact sup_c03_pending_quiescent. Qed.
 
 Print Assumptions C03_pending.
@@ -81,7 +82,7 @@ Print Assumptions C03_pending_quiescent.
 
 (* non-vacuity: runnable 0 became ready but failed before the gate looked: the gate does not open *)
 Definition c03_pend_sched : list label :=
-  [LLaunch 0; LRunCall 0; LMonSub 0; LMonRecv 0; LPollBegin 0; LRunRet 0 (Some (7, false)); LErrSend 0; LQuiet;
+  [LLaunch 0; LRunStore 0; LRunCall 0; LMonSub 0; LMonRecv 0; LPollBegin 0; LRunRet 0 (Some (7, false)); LErrSend 0; LQuiet;
    LPoll 0 true].
 Example C03_ex_pending_gate :
   exists s s', run (step pend_cfg) (init pend_cfg) c03_pend_sched = Some s /\
